@@ -280,6 +280,11 @@ Record tables := {
   t_implements : list (gty * iface);     (* which listed concrete type implements which listed interface *)
 }.
 
+(* How a function touches a variable that is not in its own frame (Gen/CtorEffects.v, written by
+   gen/c03_effects.go): AWrite = assigned to, incremented, or its address taken; ARead = any other
+   occurrence.  The obligation over that table and what it guarantees are in C03/Effects.v. *)
+Inductive access := ARead | AWrite.
+
 Fixpoint assoc {A} (k : name) (l : list (name * A)) : option A :=
   match l with [] => None | (k', a) :: r => if bytes_eqb k k' then Some a else assoc k r end.
 Fixpoint rassoc (z : Z) (l : list (name * Z)) : option name :=
